@@ -30,8 +30,8 @@
    Composite cards in such positions (the while-language with for-loops and block-local variables); the resource
    side is explicit (hypotheses on stack depth and budget).
    STATIC CALLS (fragment F9, end of this file: several functions, Call with parameters to functions declared later - no
-   recursion -, Return) are covered IN PART: the reference half (C01_f9_reference_meaning), the compiler half for the code
-   (C01_f9_compile_shape_code) and C01_f9_well_scoped are proved for all programs of the fragment; the VM half (the run of
+   recursion -, Return) are covered IN PART: the reference half (C01_f9_reference_meaning), the compiler half (code:
+   C01_f9_compile_shape_code, labels: C01_f9_compile_labels) and C01_f9_well_scoped are proved for all programs of the fragment; the VM half (the run of
    that code on Vm.run) has its vocabulary and the call / return steps proved (Cao.C01SimVm9, Cao.C01SimF9) but not the
    simulation, so there is NO C01_compile_correct_f9 yet.
    STILL OPEN - carried by the differential check
@@ -1009,8 +1009,9 @@ Print Assumptions C01_fragments_well_scoped.
        with the encoding of C01SimDefs9.code_all9 (main, then f1 .. fk; a call = the arguments, FunctionPointer (handle of
        the callee's position, its arity), CallFunction; a function body ends with one Pop per local - parameters included -,
        ScalarNil, Return; a Return card = the value, Return), with the facts about the table of global ids the earlier
-       fragments use.  That the label of function i is the address of its first instruction (labels_ok9 on bases_all9) is
-       checked on the instance; the general statement is C01_f9_compile_labels when it is present below, open otherwise;
+       fragments use;
+     - C01_f9_compile_labels: the compiler half, the labels - the label of function i is the address of its first
+       instruction in code_all9 (labels_ok9 on bases_all9), given that the label keys of the program are pairwise distinct;
      - C01_f9_reference_meaning: the reference half - eval_program fuel M host = PObs o implies that o is what the direct,
        fuel-free meaning C01SimDefs9.run_main9 computes (sem9: the meaning of the calls to the later functions, by recursion
        on the list of functions): outcome kind Ok or VarNotFound, the globals;
@@ -1103,9 +1104,7 @@ Print Assumptions C01_f9_reference_meaning.
 
 (* the compiler half for F9, the code: the bytecode of a compiled program of the fragment begins with the encoding of
    C01SimDefs9.code_all9 (main, then the other functions in order), every global name of the program has an id, the id
-   table is injective and below 2^32, and no two global names of the program share their handle.  (That the label of
-   function i is the address of its first instruction - C01SimDefs9.labels_ok9 on bases_all9 - is checked on the instance
-   above; see the header of this section for its status.) *)
+   table is injective and below 2^32, and no two global names of the program share their handle.  (The labels: C01_f9_compile_labels below.) *)
 From Cao Require C01SimComp9.
 Theorem C01_f9_compile_shape_code :
   forall (M : module) (B : Compiler.compiled),
@@ -1119,3 +1118,16 @@ Theorem C01_f9_compile_shape_code :
       C01SimDefs.handles_inj (C01SimDefs9.gnames9 M) = true.
 Proof. exact C01SimComp9.compile_f9_shape_code. Qed.
 Print Assumptions C01_f9_compile_shape_code.
+
+(* the compiler half for F9, the labels: the label of function number i of the module (i >= 1; main is number 0 and has
+   no label) is the address at which its code starts in code_all9.  Hypothesis: the label keys of the program are pairwise
+   distinct (CompilerLabels.label_keys_distinct_module, decidable: function handles are 32-bit hashes of the position, and
+   the labels of the functions of the injected library live in the same table). *)
+Theorem C01_f9_compile_labels :
+  forall (M : module) (B : Compiler.compiled),
+    C01SimDefs9.in_f9 M = true -> Compiler.compile M CompilerProofs.default_options = Compiler.COk B ->
+    (N.of_nat (List.length (Compiler.p_ids B)) < Bits.two32)%N ->
+    CompilerLabels.label_keys_distinct_module M 64 = true ->
+    C01SimDefs9.labels_ok9 (Compiler.p_labels B) 1 (C01SimDefs9.bases_all9 (Compiler.p_ids B) M).
+Proof. exact C01SimComp9.compile_f9_labels. Qed.
+Print Assumptions C01_f9_compile_labels.
